@@ -50,7 +50,7 @@ func init() {
 		st.setGhostArr("httpwrites", Store(hw, w, Add(Select(hw, w), IntLit(1))))
 		n := Var(x.fresh("written"), SInt)
 		st.assumeRaw(Ge(n, IntLit(0)))
-		k(st, []Value{IntV{n}, OpaqueV{T: Var(x.fresh("werr"), SInt), Type: types.Universe.Lookup("error").Type()}})
+		k(st, []Value{IntV{n}, x.freshErr(st, "werr")})
 	}
 	models["net/http.ResponseWriter.Header"] = func(x *Exec, fr *Frame, st *State, pc *preparedCall, k func(*State, []Value)) {
 		// the header map of a writer is a function of the writer
@@ -164,4 +164,113 @@ func init() {
 		st.assumeRaw(Eq(r.Len, IntLit(26)))
 		k(st, []Value{r})
 	}
+}
+
+// ---- responder.Responder: the interface handleHTTP talks to.  Its methods are
+// modelled on ghost state per responder: a header map (http.Header semantics),
+// the status written, the number of responses written, and the body handed over.
+// Both implementations are verified against the same observable behaviour
+// (contracts in proxy/responder).
+
+func (x *Exec) respHeaderMap(st *State, recv Value) MapV {
+	id := App("resphdr", SInt, x.asTermAny(recv))
+	st.assumeRaw(Gt(id, IntLit(0)))
+	hp := x.L.pkgOf("net/http")
+	mt := hp.Types.Scope().Lookup("Header").Type().Underlying().(*types.Map)
+	return MapV{ID: id, Type: mt}
+}
+
+func init() {
+	const rp = "reservoir/proxy/responder.Responder."
+	models[rp+"SetHeader"] = func(x *Exec, fr *Frame, st *State, pc *preparedCall, k func(*State, []Value)) {
+		npc := *pc
+		npc.recv = x.respHeaderMap(st, pc.recv)
+		modelHeaderSet(x, fr, st, &npc, k)
+	}
+	models[rp+"AddHeader"] = func(x *Exec, fr *Frame, st *State, pc *preparedCall, k func(*State, []Value)) {
+		npc := *pc
+		npc.recv = x.respHeaderMap(st, pc.recv)
+		modelHeaderAdd(x, fr, st, &npc, k)
+	}
+	models[rp+"GetHeaders"] = func(x *Exec, fr *Frame, st *State, pc *preparedCall, k func(*State, []Value)) {
+		k(st, []Value{x.respHeaderMap(st, pc.recv)})
+	}
+	// SetHeaders(h): for every key of h the response carries all values of h[key], in order
+	models[rp+"SetHeaders"] = func(x *Exec, fr *Frame, st *State, pc *preparedCall, k func(*State, []Value)) {
+		dst := x.respHeaderMap(st, pc.recv)
+		src := pc.args[0].(MapV)
+		x.mapCopyAll(st, dst, src)
+		k(st, nil)
+	}
+	models[rp+"Write"] = func(x *Exec, fr *Frame, st *State, pc *preparedCall, k func(*State, []Value)) {
+		w := x.asTermAny(pc.recv)
+		x.recordStatus(st, w, pc.args[0].(IntV).T)
+		rb := st.ghostArr("respbody", SInt)
+		st.setGhostArr("respbody", Store(rb, w, x.identityOf(st, pc.args[1])))
+		n := Var(x.fresh("written"), SInt)
+		st.assumeRaw(Ge(n, IntLit(0)))
+		k(st, []Value{IntV{n}, x.freshErr(st, "werr")})
+	}
+	models[rp+"WriteEmpty"] = func(x *Exec, fr *Frame, st *State, pc *preparedCall, k func(*State, []Value)) {
+		x.recordStatus(st, x.asTermAny(pc.recv), pc.args[0].(IntV).T)
+		k(st, []Value{x.freshErr(st, "werr")})
+	}
+	models[rp+"WriteError"] = func(x *Exec, fr *Frame, st *State, pc *preparedCall, k func(*State, []Value)) {
+		x.recordStatus(st, x.asTermAny(pc.recv), pc.args[1].(IntV).T)
+		k(st, []Value{x.freshErr(st, "werr")})
+	}
+	models["io.NewSectionReader"] = func(x *Exec, fr *Frame, st *State, pc *preparedCall, k func(*State, []Value)) {
+		sig := pc.fn.Type().(*types.Signature)
+		pt := x.resolveType(sig.Results().At(0).Type())
+		p := x.zeroValue(pt).(PtrV)
+		p.Addr = App("sectionreader", SInt, x.identityOf(st, pc.args[0]), pc.args[1].(IntV).T, pc.args[2].(IntV).T)
+		st.assumeRaw(Gt(p.Addr, IntLit(0)))
+		k(st, []Value{p})
+	}
+}
+
+// mapCopyAll: afterwards dst[k] == src[k] for every key of src (other keys of dst unchanged).
+func (x *Exec) mapCopyAll(st *State, dst, src MapV) {
+	ks := mapKeyStr(dst)
+	kq := x.qvar("mk")
+	// new arrays for dst's row of every leaf
+	update := func(key string, sort *Sort, f func(oldRow, srcRow, newRow *Term)) {
+		arr := st.heapArr(key, sort)
+		oldRow := Select(arr, dst.ID)
+		srcRow := Select(arr, src.ID)
+		newRow := Var(x.fresh("row_"+sanitize(key)), oldRow.Sort)
+		f(oldRow, srcRow, newRow)
+		st.heap[key] = Store(arr, dst.ID, newRow)
+	}
+	presArr := st.heapArr(ks+"#present", ArrOf(SBool))
+	srcPres := Select(presArr, src.ID)
+	update(ks+"#present", ArrOf(SBool), func(o, s, n *Term) {
+		st.assumeRaw(Forall([]*Term{kq}, Eq(Select(n, kq), Or(Select(o, kq), Select(s, kq)))))
+	})
+	zero := x.zeroValue(dst.Type.Elem())
+	var ls []struct {
+		Path string
+		T    *Term
+	}
+	x.leavesOf(zero, "", &ls)
+	for _, l := range ls {
+		if l.T.Sort == SInt && strings.HasSuffix(l.Path, ".off") {
+			continue
+		}
+		kq2 := x.qvar("mk")
+		update(ks+l.Path, ArrOf(l.T.Sort), func(o, s, n *Term) {
+			st.assumeRaw(Forall([]*Term{kq2}, Eq(Select(n, kq2), Ite(Select(srcPres, kq2), Select(s, kq2), Select(o, kq2)))))
+		})
+	}
+	card := st.heapArr(ks+"#card", SInt)
+	nc := Var(x.fresh("card"), SInt)
+	st.assumeRaw(Ge(nc, Select(card, dst.ID)))
+	st.heap[ks+"#card"] = Store(card, dst.ID, nc)
+}
+
+// freshErr is an arbitrary error value (nil or some error that is none of the sentinels).
+func (x *Exec) freshErr(st *State, hint string) Value {
+	e := Var(x.fresh(hint), SInt)
+	st.assumeRaw(Or(Eq(e, IntLit(0)), Gt(e, IntLit(100000))))
+	return OpaqueV{T: e, Type: types.Universe.Lookup("error").Type()}
 }
